@@ -7,6 +7,7 @@ import (
 	"testing"
 	"time"
 
+	cconv "github.com/pip-services3-gox/pip-services3-commons-gox/convert"
 	"github.com/pip-services3-gox/pip-services3-expressions-gox/calculator"
 	"github.com/pip-services3-gox/pip-services3-expressions-gox/calculator/functions"
 	"github.com/pip-services3-gox/pip-services3-expressions-gox/variants"
@@ -20,6 +21,8 @@ type c08Case struct {
 	Name string `json:"name"` // as spelled (any letter case)
 	Args []val  `json:"args"`
 	Safe bool   `json:"safe"`
+	// Host > 0: the arguments are built from host values through NewVariant / VariantFromObject (int32, uint, uint32 ...)
+	Host int `json:"host,omitempty"`
 }
 
 var c08Names = []string{"Ticks", "TimeSpan", "Now", "Date", "DayOfWeek", "Min", "Max", "Sum", "If", "Choose", "E", "Pi", "Rnd", "Random", "Abs",
@@ -292,6 +295,10 @@ func refFunction(name string, args []val, safe bool) c08Ref {
 		if bad != nil {
 			return *bad
 		}
+		if args[0].K == "string" && !safe {
+			// a text that spells its own offset denotes a day in that offset (the commons converter keeps it)
+			return ok(exact(vInt(int(cconv.DateTimeConverter.ToDateTime(args[0].S).Weekday()))))
+		}
 		return ok(exact(vInt(int(vs[0].toTime().Weekday()))))
 	}
 	return c08Ref{refResult: freeRes("unknown function " + name)}
@@ -308,6 +315,9 @@ func checkC08(c c08Case) *evid.Fail {
 	args := make([]*variants.Variant, len(c.Args))
 	for i, a := range c.Args {
 		args[i] = a.toVariant()
+		if c.Host > 0 {
+			args[i] = a.toHostVariant(c.Host + i)
+		}
 	}
 	t0 := time.Now()
 	var v *variants.Variant
@@ -492,6 +502,8 @@ func c08Run(rec *evid.Recorder, c c08Case) bool {
 var c08SubPool = []val{vNull(), vInt(0), vInt(-7), vInt(3), vLong(-9223372036854775807), vLong(9007199254740993), vDouble(2.5), vDouble(-0.5), vFloat(1.5), vString("abc"), vString("12"), vString(""),
 	vBool(true), vSpan(1500 * time.Millisecond), vTime(time.Date(2020, 2, 29, 12, 0, 0, 0, time.UTC)), vArray(vInt(1), vString("a")),
 	vTime(time.Date(2024, 1, 1, 1, 30, 0, 0, east3)),
+	// instants written with an offset of their own, close to midnight there; time spans inside one millisecond
+	vString("2024-01-02T01:30:00+14:00"), vString("2024-01-01T22:30:00-11:00"), vSpan(250 * time.Microsecond), vSpan(900 * time.Microsecond), vSpan(-999 * time.Microsecond),
 	// two more instants inside the second of the one above: ordering is by instant, not by calendar second
 	vTime(time.Date(2020, 2, 29, 12, 0, 0, 750000000, time.UTC)), vTime(time.Date(2020, 2, 29, 12, 0, 0, 250000001, time.UTC))}
 
@@ -504,11 +516,12 @@ func TestC08_Exhaustive(t *testing.T) {
 	parallelFor(len(c08Names), func(i int) {
 		name := c08Names[i]
 		for _, safe := range []bool{false, true} {
-			c08Run(rec, c08Case{name, nil, safe})
+			c08Run(rec, c08Case{Name: name, Safe: safe})
 			for _, a := range c08SubPool {
-				c08Run(rec, c08Case{name, []val{a}, safe})
+				c08Run(rec, c08Case{Name: name, Args: []val{a}, Safe: safe})
+				c08Run(rec, c08Case{Name: name, Args: []val{a}, Safe: safe, Host: 1 + len(name)%3})
 				for _, b := range c08SubPool {
-					c08Run(rec, c08Case{name, []val{a, b}, safe})
+					c08Run(rec, c08Case{Name: name, Args: []val{a, b}, Safe: safe})
 				}
 			}
 			for n := 3; n <= 8; n++ {
@@ -517,7 +530,7 @@ func TestC08_Exhaustive(t *testing.T) {
 					for k := range args {
 						args[k] = c08SubPool[(off+k*(n-1))%len(c08SubPool)]
 					}
-					c08Run(rec, c08Case{name, args, safe})
+					c08Run(rec, c08Case{Name: name, Args: args, Safe: safe})
 				}
 			}
 		}
@@ -557,7 +570,7 @@ func TestC08_Rapid(t *testing.T) {
 				args[i] = genValue(rt, 1)
 			}
 		}
-		if c08Run(rec, c08Case{sb.String(), args, rapid.IntRange(0, 3).Draw(rt, "safe") == 0}) {
+		if c08Run(rec, c08Case{Name: sb.String(), Args: args, Safe: rapid.IntRange(0, 3).Draw(rt, "safe") == 0, Host: rapid.SampledFrom([]int{0, 0, 0, 1, 2, 3}).Draw(rt, "host")}) {
 			rt.Fatalf("C08 violated")
 		}
 	})
@@ -580,7 +593,7 @@ func TestC08_EnumRandomRange(t *testing.T) {
 		for i := 0; i < perWorker; i++ {
 			v, err := f.Calculate(nil, ops)
 			if err != nil || v == nil || v.Type() != variants.Float || !(v.AsFloat() >= 0 && v.AsFloat() < 1) {
-				c := c08Case{name, nil, w%4 < 2}
+				c := c08Case{Name: name, Safe: w%4 < 2}
 				rec.Fail(evid.F("random-out-of-range", "%s() returned %s (%v) after %d draws", name, resultRepr(v, err), err, i), c)
 				bad++
 				return
@@ -589,7 +602,7 @@ func TestC08_EnumRandomRange(t *testing.T) {
 		rec.Label("draws:"+name, int64(perWorker))
 	})
 	for w := 0; w < workers; w++ {
-		c := c08Case{[]string{"Rnd", "Random"}[w%2], nil, w%4 < 2}
+		c := c08Case{Name: []string{"Rnd", "Random"}[w%2], Safe: w%4 < 2}
 		rec.Case(fmt.Sprintf("worker %d", w), true, func() interface{} { return fmt.Sprintf("%s() x %d", c.Name, perWorker) })
 	}
 }
